@@ -229,7 +229,9 @@ func retryRules(c *Ctx) {
 				if k, isK := constInt(bo.Y); isK && k == 1 {
 					if hp, isP := bo.X.(*ssa.Phi); isP && P.InCycle(hp) {
 						for _, he := range hp.Edges {
-							if he == ssa.Value(ph) {
+							// (directly, or handed back by a helper together with its other results: a join whose arms
+							// that go round the loop carry the incremented value)
+							if he == ssa.Value(ph) || srcIs(P, he, ph) || srcIs(P, he, bo) {
 								grow = true
 							}
 						}
